@@ -15,7 +15,7 @@ LEVEL = "exploration"
 COEF = {"scale": (1.5, 1.0), "shape": (1.2, 0.8), "loc": (0.3, 0.4), "mu": (0.4, 0.5), "sigma": (0.3, 0.4),
         "delta": (1.5, 1.5), "kappa": (1.0, 3.0), "lambda": (0.4, 0.5), "mean": (2.0, 1.5), "std": (0.8, 0.6),
         "vmu": (0.2, 1.0)}
-GIVEN = [0.0, 0.4, 1.3, 2.7, 6.0]
+GIVEN = [0.0, 0.4, -1.3, 2.7, 6.0]     # incl. 0 and a negative conditioning value (normal / von Mises conditioners)
 PROBS = [0.1, 0.6, 0.97, 0.35, 0.85]
 
 
